@@ -76,6 +76,12 @@ def r14a(model, ctx):
     def body1(name):
         fn = ms.get(name)
         stmts = [s for s in (fn.body if fn else []) if not (isinstance(s, ast.Expr) and isinstance(s.value, ast.Constant))]
+        if len(stmts) > 1 and all(isinstance(s_, (ast.Assign, ast.Return)) for s_ in stmts):
+            # a straight-line body that binds locals first: the result with the locals substituted
+            from ..engine.symx import run_paths as _rp
+            ps = _rp(stmts)
+            if len(ps) == 1 and ps[0].how == "return" and ps[0].ret is not None and not ps[0].effects:
+                return fn, "return " + unparse(ps[0].ret)
         return fn, (unparse(stmts[0]) if len(stmts) == 1 else None)
     fn, b = body1("flip")
     ctx.check(b == "return self.__unflipped", R, "FlippedSignature.flip", "returns the stored original (flip twice = identity)",
@@ -107,6 +113,13 @@ def r14a(model, ctx):
     t = unparse(f)
     ok = "yield ((*path, name), member)" in t and "yield from member.signature.members.flatten(path=(*path, name))" in t and \
         "for (name, member) in self.items()" in t.replace("for name, member in", "for (name, member) in")
+    if not ok:
+        # other loop headers over the same collection (for name in self: member = self[name]) are not decided here; the
+        # recognised mistakes are a missing yield of the member itself or a recursion that bypasses member.signature
+        has_yield = any(isinstance(y, ast.Yield) and "member" in unparse(y) for y in ast.walk(f))
+        rec = [y for y in ast.walk(f) if isinstance(y, ast.YieldFrom)]
+        via_sig = any("member.signature.members.flatten" in unparse(y) for y in rec)
+        need(not (has_yield and via_sig), "SignatureMembers.flatten: loop form not recognised")
     ctx.check(ok, R, "SignatureMembers.flatten", "every member is yielded once; sub-signatures through the effective signature",
               "flatten must yield every member and recurse into member.signature.members (the effective, possibly flipped one)", f"{W}:{f.lineno}")
 
